@@ -563,3 +563,59 @@ def r_optlen(prog, R, rid):
                    "skip the value ('if (val && val_len)'), so the serialised message announces n bytes it does not contain and does not parse back" % (el.get("t", ""), vn, ln_))
         else:
             r.ok(k, f.loc(el))
+
+
+def r_preslimit(prog, R, rid):
+    r = R.rule(rid, "writing a name never fails on the length of its presentation (escaped) form: the protocol limits are 63 octets per label and 255 per name on the wire, and a legal "
+               "name can take up to four characters per octet when escaped -- a cap on strlen() of the text rejects names the parser itself reports", floor=1,
+               analysis="A-DOM guard vocabulary over everything reachable from ares_dns_name_write: failing guards that compare ares_strlen(..) with a literal")
+    root = prog.func("ares_dns_name_write")
+    reach, work = {}, [root]
+    while work:
+        f = work.pop()
+        if f.key in reach:
+            continue
+        reach[f.key] = f
+        for b, i, c in f.calls():
+            t = prog.resolve(f, c)
+            if t is not None and t.file == root.file:
+                work.append(t)
+    n = 0
+    for f in sorted(reach.values(), key=lambda x: x.key):
+        bad = None
+        for b in f.blocks.values():
+            br = f.branch(b)
+            if not br:
+                continue
+            for pol, tgt in ((True, br[1]), (False, br[2])):
+                if tgt is None:
+                    continue
+                blk = f.blocks[tgt]
+                if not any((el["k"] == "ret" and name_of_const(el.get("e")) not in (None, "ARES_SUCCESS", "ARES_TRUE", "ARES_FALSE")) or
+                           (el["k"] == "asg" and is_var(strip(el["e"]["l"]), "status") and (name_of_const(el["e"].get("r")) or "ARES_SUCCESS") != "ARES_SUCCESS") for el in blk.els):
+                    continue
+                for c, p_ in atoms(br[0], pol):
+                    op, l, rr = norm_cmp(c, p_)
+                    if rr is None or const_val(rr) is None or op not in ("<", ">", "<=", ">="):
+                        continue
+                    if (const_val(rr) == 0 and op in (">", "<=")) or (const_val(rr) == 1 and op in (">=", "<")):
+                        continue
+                    if strip(rr).get("k") == "sizeof":
+                        continue      # capacity of a local buffer sized for the worst case (R-C03-OFF / the 1024-byte copy): not a protocol statement
+                    ls = strip(l)
+                    srcs = [ls]
+                    if is_var(ls):
+                        srcs = [strip(x[3]) for x in _assignments(f, ls["n"])]
+                    for s_ in srcs:
+                        if s_ is not None and s_.get("k") == "call":
+                            cc = f.call_by_id(s_["id"])[2] if s_.get("ref") else s_
+                            if cc.get("callee") in ("ares_strlen", "strlen"):
+                                bad = (b, "%s %s %s" % (render(strip(l)), op, const_val(rr)))
+        n += 1
+        k = "fn=%s does not cap the presentation length" % f.name
+        if bad:
+            r.viol(k, f.name, f.loc(bad[0].term.get("ln", f.ln)), "%s (on the path of ares_dns_name_write) fails when '%s': a name whose escaped text is longer than that -- one 63-octet label of "
+                   "non-printable bytes is 252 characters -- is legal (the parser reports it) but cannot be written, so ares_dns_write and ares_dns_record_duplicate fail for the whole message" % (f.name, bad[1]))
+        else:
+            r.ok(k, f.loc(f.ln))
+    r.require(n >= 3, "write path of names not found")
